@@ -29,7 +29,7 @@ package sync
 //@   trusted -- abstract contract of LockPile; lock_pile.go is not verified against it
 //@   modifies held, pile[lp]
 //@   havoc F:pkg/filesystem/virtual.* M:* E:* MD:* MV:* MC
-//@   ensures len(newLocks) <= 3 ==> (forall l TryLocker :: pile[lp][l] == old(pile[lp][l]) + occurrences(newLocks, l))
+//@   ensures len(newLocks) <= 3 ==> (forall l TryLocker :: pile[lp][l] == old(pile[lp][l]) + old(occurrences(newLocks, l)))
 //@   ensures forall l TryLocker :: held(l) == old(held(l)) + b2i(old(pile[lp][l]) == 0 && pile[lp][l] > 0)
 
 //@ func (*LockPile).Unlock
